@@ -127,6 +127,9 @@ where
                         let closed = detach.closed;
                         self.send_detach(writer, closed, None).await?;
                         let result = self.on_incoming_detach(detach);
+                        if closed {
+                            self.abandon_delivery_waiters();
+                        }
 
                         match (result, closed) {
                             (Ok(_), true) => Err(LinkStateError::RemoteClosed),
@@ -161,6 +164,17 @@ where
                 // Draining should already set the link credit to 0, causing
                 // sender to wait for new link credit
                 Ok(tag)
+            }
+        }
+    }
+
+    /// The peer closed the link: it cannot be resumed, so no outcome will arrive for what
+    /// is still unsettled. Whoever awaits one (the futures of `send_batchable`) is woken.
+    pub(crate) fn abandon_delivery_waiters(&self) {
+        let mut guard = self.unsettled.write();
+        if let Some(map) = guard.as_mut() {
+            for message in map.values_mut() {
+                message.abandon_waiter();
             }
         }
     }
